@@ -134,3 +134,47 @@ package tbtc
 //@   ensures [leader-is-an-operator] exists i int :: 0 <= i && i < len(ce.coordinatedWallet.signingGroupOperators) && ce.coordinatedWallet.signingGroupOperators[i] == result
 //@   loop 1 invariant forall k int :: 0 <= k && k < len(uniqueOperators) ==> uniqueOperators[k] in rangecoll1
 //@   loop 1 invariant forall x chain.Address :: x in visited1 ==> (exists k int :: 0 <= k && k < len(uniqueOperators) && uniqueOperators[k] == x)
+
+// ---------------------------------------------------------------------------
+// C24: coordination follower
+
+//@ ghost lastMsg ref
+//@ spec func actionTypeOf(p ref) WalletActionType
+
+//@ spec func signingOf(c ref) ref
+//@ assume func Chain.Signing
+//@   ensures result == @signingOf(recv)
+
+//@ assume func CoordinationProposal.ActionType
+//@   ensures result == @actionTypeOf(recv)
+
+//@ func wallet.membersByOperator
+//@   property C24
+//@   pure
+//@   requires len(w.signingGroupOperators) <= 255
+//@   ensures forall k int :: 0 <= k && k < len(result) ==> 1 <= result[k] && result[k] <= len(w.signingGroupOperators) && w.signingGroupOperators[result[k] - 1] == operator
+//@   ensures (exists i int :: 0 <= i && i < len(w.signingGroupOperators) && w.signingGroupOperators[i] == operator) ==> len(result) >= 1
+//@   loop 1 invariant forall k int :: 0 <= k && k < len(members) ==> 1 <= members[k] && members[k] <= i && w.signingGroupOperators[members[k] - 1] == operator
+//@   loop 1 invariant (exists j int :: 0 <= j && j < i && w.signingGroupOperators[j] == operator) ==> len(members) >= 1
+
+//@ func coordinationExecutor.executeFollowerRoutine
+//@   property C24
+//@   requires len(ce.coordinatedWallet.signingGroupOperators) <= 255
+//@   requires exists i int :: 0 <= i && i < len(ce.coordinatedWallet.signingGroupOperators) && ce.coordinatedWallet.signingGroupOperators[i] == leader
+//@   modifies ghost.lastMsg, ghost.ctxDone, alloc
+//@   recv-from messagesChan: modifies ghost.lastMsg; ghost.lastMsg == elem
+//@   ensures [accepted:is-coordination-message] err == nil ==> (let p = @payloadOf(ghost.lastMsg) :: let cm = unbox(p, *coordinationMessage) :: p != nil && dyntype(p) == typeid(*coordinationMessage) && result0 == cm.proposal)
+//@   ensures [accepted:sender-is-leader] err == nil ==> (let p = @payloadOf(ghost.lastMsg) :: let cm = unbox(p, *coordinationMessage) :: cm.senderID == ce.coordinatedWallet.membersByOperator(leader)[0])
+//@   ensures [accepted:valid-membership] err == nil ==> (let p = @payloadOf(ghost.lastMsg) :: let cm = unbox(p, *coordinationMessage) :: @validMembership(ce.membershipValidator, cm.senderID, @senderKey(ghost.lastMsg)))
+//@   ensures [accepted:this-window] err == nil ==> (let p = @payloadOf(ghost.lastMsg) :: let cm = unbox(p, *coordinationMessage) :: cm.coordinationBlock == coordinationBlock)
+//@   ensures [accepted:this-wallet] err == nil ==> (let p = @payloadOf(ghost.lastMsg) :: let cm = unbox(p, *coordinationMessage) :: cm.walletPublicKeyHash == ce.walletPublicKeyHash())
+//@   ensures [accepted:not-own-member] err == nil ==> (let p = @payloadOf(ghost.lastMsg) :: let cm = unbox(p, *coordinationMessage) :: !(exists i int :: 0 <= i && i < len(ce.membersIndexes) && ce.membersIndexes[i] == cm.senderID))
+//@   ensures [accepted:action-allowed] err == nil ==> (let p = @payloadOf(ghost.lastMsg) :: let cm = unbox(p, *coordinationMessage) :: exists i int :: 0 <= i && i < len(actionsAllowed) && actionsAllowed[i] == @actionTypeOf(cm.proposal))
+//@   ensures [timeout-blames-leader-idleness] err != nil ==> result0 == nil && len(result1) >= 1 && result1[len(result1) - 1] != nil && result1[len(result1) - 1].culprit == leader && result1[len(result1) - 1].faultType == FaultLeaderIdleness
+//@   ensures [fault-attribution] forall k int :: 0 <= k && k < len(result1) - ite(err != nil, 1, 0) ==> result1[k] != nil && ((result1[k].faultType == FaultLeaderImpersonation && (exists key []byte :: result1[k].culprit == @addrOfKey(@signingOf(ce.chain), key))) || (result1[k].faultType == FaultLeaderMistake && result1[k].culprit == leader))
+//@   loop 1 invariant forall k int :: 0 <= k && k < len(faults) ==> faults[k] != nil && allocated(faults[k]) && ((faults[k].faultType == FaultLeaderImpersonation && (exists key []byte :: faults[k].culprit == @addrOfKey(@signingOf(ce.chain), key))) || (faults[k].faultType == FaultLeaderMistake && faults[k].culprit == leader))
+//@   assert call:Signing.PublicKeyBytesToAddress : let cm = unbox(@payloadOf(ghost.lastMsg), *coordinationMessage) :: @validMembership(ce.membershipValidator, cm.senderID, @senderKey(ghost.lastMsg)) && cm.coordinationBlock == coordinationBlock && cm.senderID != ce.coordinatedWallet.membersByOperator(leader)[0]
+
+//@ func coordinationExecutor.walletPublicKeyHash
+//@   property C24
+//@   pure
